@@ -182,6 +182,27 @@ pub fn extreme_leaf(v: &mut V, which: usize, high: bool) {
     });
 }
 
+/// move the `which`-th numeric leaf (pre-order) to a neighbouring value: +1 for integers, a few per cent for reals
+pub fn nudge_leaf(v: &mut V, which: usize) {
+    let mut n = 0;
+    walk_mut(v, ("", ""), &mut |x, s, _| {
+        if s == Site::Int || s == Site::Float {
+            if n == which {
+                match x {
+                    V::F32(f) => *f = if *f == 0.0 { 1.0 } else { *f * 1.03125 },
+                    V::F64(f) => *f = if *f == 0.0 { 1.0 } else { *f * 1.03125 },
+                    _ => {
+                        let (lo, hi) = int_bounds(x);
+                        let c = int_get(x);
+                        int_set(x, if c < hi { c + 1 } else { lo.max(c - 1) });
+                    }
+                }
+            }
+            n += 1;
+        }
+    });
+}
+
 pub fn mut_int(v: &mut V, rng: &mut Rng) {
     let (lo, hi) = int_bounds(v);
     let cur = int_get(v);
